@@ -190,7 +190,9 @@ fn build_entry(s: &Spec, pw: &str) -> io::Result<NormalEntry> {
 const HEAD_LEN: usize = 8 + 12 + 8; // signature + AHED chunk
 const TAIL_LEN: usize = 12; // AEND chunk
 
-/// what the independent parser sees of one raw entry: PHSF, IV, the decrypted data pieces, the key
+/// what the independent parser sees of one raw entry: PHSF, IV, the decrypted data pieces, the key.
+/// When the stream cannot be decrypted independently (a defect in what was written) the pieces stay as they
+/// are: the case is emitted all the same, the model then disagrees and the C01 oracle of `run` speaks.
 fn observe(chunks: &[refdec::Chunk], data_ty: &[u8; 4], cfg: &Cfg, pw: &str) -> Result<Obs, String> {
     let mut o = Obs::default();
     let mut data: Vec<Vec<u8>> = Vec::new();
@@ -206,15 +208,23 @@ fn observe(chunks: &[refdec::Chunk], data_ty: &[u8; 4], cfg: &Cfg, pw: &str) -> 
         return Ok(o);
     }
     if data.is_empty() || data[0].len() != 16 {
-        return Err("first data chunk is not a 16-byte IV".into());
+        o.pieces = data;
+        return Ok(o);
     }
     o.iv = data.remove(0);
-    let phc = refdec::phc_parse(&o.phsf).ok_or("PHSF does not parse")?;
-    o.key = refdec::derive_key(&phc, pw.as_bytes())?;
+    let key = refdec::phc_parse(&o.phsf).ok_or("PHSF does not parse".to_string()).and_then(|phc| refdec::derive_key(&phc, pw.as_bytes()));
+    let Ok(key) = key else {
+        o.pieces = data;
+        return Ok(o);
+    };
+    o.key = key;
     let blk = refdec::Block::new(cfg.enc, &o.key)?;
     let all = data.concat();
     if cfg.mode == 0 {
-        o.pieces = vec![refdec::cbc_decrypt(&blk, &o.iv, &all)?];
+        o.pieces = match refdec::cbc_decrypt(&blk, &o.iv, &all) {
+            Ok(p) => vec![p],
+            Err(_) => data,
+        };
     } else {
         let plain = refdec::ctr_xor(&blk, &o.iv, &all);
         let mut pos = 0;
@@ -313,10 +323,12 @@ impl Tables {
             self.v.push((o.phsf.clone(), o.key.clone()));
         }
         if cfg.comp != 0 {
+            // a stream that does not decompress independently gets no table entry (the C01 oracle of `run` reports it)
             let stream = o.pieces.concat();
-            let plain = refdec::decompress(cfg.comp, &stream)?;
-            if !self.d.iter().any(|(s, _)| *s == stream) {
-                self.d.push((stream, plain));
+            if let Ok(plain) = refdec::decompress(cfg.comp, &stream) {
+                if !self.d.iter().any(|(s, _)| *s == stream) {
+                    self.d.push((stream, plain));
+                }
             }
         }
         Ok(())
@@ -771,6 +783,10 @@ fn other_bufs(bufs: &[usize]) -> Vec<usize> {
 }
 
 fn run_writer(c: &Case, oracle: &mut Vec<String>) -> String {
+    if let Some(m) = c.args.iter().find(|a| a.starts_with("GENFAIL")) {
+        oracle.push(format!("C01: the writer failed on a valid input, or what it wrote has no entry structure: {}", &m[..m.len().min(300)]));
+        return "ERR writer".to_string();
+    }
     let pw = String::from_utf8(unhex_item(arg(c, 0))).unwrap_or_default();
     let bufs = declist(arg(c, 1));
     let produced = arg(c, 2);
